@@ -76,10 +76,37 @@ pub struct Decl {
     #[serde(default)]
     pub raw_content_type: Option<String>,
 }
+#[derive(Deserialize, Clone, Debug)]
+pub struct TagExt {
+    pub description: Option<String>,
+    pub url: String,
+}
+#[derive(Deserialize, Clone, Debug)]
+pub struct TagDef {
+    pub name: String,
+    pub description: Option<String>,
+    pub ext: Option<TagExt>,
+}
+#[derive(Deserialize, Clone, Debug)]
+pub struct TagCfgArg {
+    pub allow_other_tags: Option<bool>,
+    pub policy: Option<String>,
+    pub tagset: String,
+    pub tags: Vec<TagDef>,
+}
+#[derive(Deserialize, Clone, Debug)]
+pub struct TagCfg {
+    pub idx: usize,
+    pub config: Option<TagCfgArg>,
+}
 #[derive(Deserialize)]
 struct BatchFile {
     decls: Vec<Decl>,
     panics: Vec<Decl>,
+    #[serde(default)]
+    tagcfgs: Vec<TagCfg>,
+    #[serde(default)]
+    tag_eps: Vec<Decl>,
 }
 
 pub fn g_ustr(s: &str) -> String {
@@ -433,6 +460,192 @@ fn share_lists(term: &str) -> String {
     out
 }
 
+
+// ------------------------------------------------------------ trait-level tag_config
+
+fn g_details(description: &Option<String>, ext: &Option<(Option<String>, String)>) -> String {
+    format!(
+        "(mkTagDetails {} {})",
+        g_opt(description, |s| g_str(s)),
+        g_opt(ext, |(d, u)| format!("({}, {})", g_opt(d, |s| g_str(s)), g_str(u)))
+    )
+}
+fn g_policy(p: &dropshot::EndpointTagPolicy) -> &'static str {
+    match p {
+        dropshot::EndpointTagPolicy::Any => "TPAny",
+        dropshot::EndpointTagPolicy::AtLeastOne => "TPAtLeastOne",
+        dropshot::EndpointTagPolicy::ExactlyOne => "TPExactlyOne",
+    }
+}
+fn policy_of(s: &str) -> dropshot::EndpointTagPolicy {
+    match s {
+        "AtLeastOne" => dropshot::EndpointTagPolicy::AtLeastOne,
+        "ExactlyOne" => dropshot::EndpointTagPolicy::ExactlyOne,
+        _ => dropshot::EndpointTagPolicy::Any,
+    }
+}
+/// the observed TagConfig as a Gallina [tag_config] (tags sorted by name)
+fn g_tag_config(c: &dropshot::TagConfig) -> String {
+    let mut tags: Vec<_> = c.tags.iter().collect();
+    tags.sort_by(|a, b| a.0.cmp(b.0));
+    format!(
+        "(mkTagConfig {} {} {})",
+        g_bool(c.allow_other_tags),
+        g_policy(&c.policy),
+        g_list(&tags, |(n, d)| format!(
+            "({}, {})",
+            g_str(n),
+            g_details(&d.description, &d.external_docs.as_ref().map(|e| (e.description.clone(), e.url.clone())))
+        ))
+    )
+}
+fn g_tc_arg(c: &Option<TagCfgArg>) -> String {
+    g_opt(c, |c| {
+        let mut tags = c.tags.clone();
+        tags.sort_by(|a, b| a.name.cmp(&b.name));
+        format!(
+            "(mkTcArg {} {} {})",
+            g_opt(&c.allow_other_tags, |b| g_bool(*b)),
+            g_opt(&c.policy, |p| g_policy(&policy_of(p)).to_string()),
+            g_list(&tags, |t| format!(
+                "({}, {})",
+                g_str(&t.name),
+                g_details(&t.description, &t.ext.as_ref().map(|e| (e.description.clone(), e.url.clone())))
+            ))
+        )
+    })
+}
+/// the TagConfig a user of the function style writes for the same declaration
+/// (fields left out take the documented defaults of the trait argument)
+fn fn_style_api(c: &Option<TagCfgArg>) -> ApiDescription<()> {
+    match c {
+        None => ApiDescription::new(),
+        Some(c) => ApiDescription::new().tag_config(dropshot::TagConfig {
+            allow_other_tags: c.allow_other_tags.unwrap_or(false),
+            policy: policy_of(c.policy.as_deref().unwrap_or("Any")),
+            tags: c
+                .tags
+                .iter()
+                .map(|t| {
+                    (
+                        t.name.clone(),
+                        dropshot::TagDetails {
+                            description: t.description.clone(),
+                            external_docs: t.ext.as_ref().map(|e| dropshot::TagExternalDocs {
+                                description: e.description.clone(),
+                                url: e.url.clone(),
+                            }),
+                        },
+                    )
+                })
+                .collect(),
+        }),
+    }
+}
+fn err_code(m: &str) -> u32 {
+    if m.starts_with("At least one tag") {
+        1
+    } else if m.starts_with("Exactly one tag") {
+        2
+    } else if m.starts_with("Invalid tag") {
+        3
+    } else {
+        9
+    }
+}
+
+fn run_tagcfg(only: Option<&[usize]>, out: &mut dyn Write) {
+    use batch0::tagcfg;
+    let file: BatchFile = serde_json::from_str(batch0::DECLS_JSON).expect("batch json");
+    let eps = &file.tag_eps;
+    let opid = |d: &Decl| d.operation_id.clone().unwrap_or(d.name.clone());
+    let order = |errs: &[(String, String)]| -> Vec<(String, u32)> {
+        let mut v: Vec<(usize, String, u32)> = errs
+            .iter()
+            .map(|(o, m)| (eps.iter().position(|d| &opid(d) == o).unwrap_or(usize::MAX), o.clone(), err_code(m)))
+            .collect();
+        v.sort();
+        v.into_iter().map(|(_, o, c)| (o, c)).collect()
+    };
+    let v1 = Version::new(1, 0, 0);
+    for tc in &file.tagcfgs {
+        if let Some(only) = only {
+            if !only.contains(&tc.idx) {
+                continue;
+            }
+        }
+        let built = match catch(|| tagcfg::build(tc.idx)) {
+            Ok(b) => b,
+            Err(p) => {
+                emit(out, &Line { group: "tagcfg", case: json!({"batch": 0, "tagcfg": tc.idx}),
+                    obs: json!({"panic": p}), coq: format!("(CTagCfg {} [] [] [] false)", g_tc_arg(&tc.config)),
+                    tags: vec!["tagcfg:panic".into()], nontrivial: true });
+                continue;
+            }
+        };
+        // function style: every endpoint registered on a description carrying the declared TagConfig
+        let mut api = fn_style_api(&tc.config);
+        let mut fn_errs = Vec::new();
+        for d in eps {
+            if let Err(m) = tagcfg::register_fn(&mut api, d.idx) {
+                fn_errs.push((opid(d), m));
+            }
+        }
+        let refused: Vec<Vec<(String, u32)>> = vec![
+            order(&fn_errs),
+            order(built.a_impl.as_ref().err().map(|e| e.as_slice()).unwrap_or(&[])),
+            order(built.a_stub.as_ref().err().map(|e| e.as_slice()).unwrap_or(&[])),
+        ];
+        let cfgs: Vec<Option<String>> = vec![
+            built.b_impl.as_ref().ok().map(|a| g_tag_config(a.get_tag_config())),
+            built.b_stub.as_ref().ok().map(|a| g_tag_config(a.get_tag_config())),
+        ];
+        // documents of the always-buildable trait B against the function style with the same endpoint
+        let mut api_b = fn_style_api(&tc.config);
+        for d in eps.iter().filter(|d| d.unpublished) {
+            let _ = tagcfg::register_fn(&mut api_b, d.idx);
+        }
+        let doc_fn = api_b.openapi("C19", v1.clone()).json().ok();
+        let doc_impl = built.b_impl.as_ref().ok().and_then(|a| a.openapi("C19", v1.clone()).json().ok());
+        let doc_stub = built.b_stub.as_ref().ok().and_then(|a| a.openapi("C19", v1.clone()).json().ok());
+        let docs_same = doc_fn.is_some() && doc_fn == doc_impl && doc_impl == doc_stub;
+        let coq = format!(
+            "(CTagCfg {} {} {} {} {})",
+            g_tc_arg(&tc.config),
+            g_list(eps, |d| g_attr(d)),
+            g_list(&cfgs, |c| g_opt(c, |s| s.clone())),
+            g_list(&refused, |r| g_list(r, |(o, c)| format!("({}, {})", g_str(o), c))),
+            g_bool(docs_same)
+        );
+        let (pol, allow, ts) = match &tc.config {
+            None => ("no-tag_config".to_string(), "-".to_string(), "-".to_string()),
+            Some(c) => (
+                c.policy.clone().unwrap_or("left-out".into()),
+                c.allow_other_tags.map(|b| b.to_string()).unwrap_or("left-out".into()),
+                c.tagset.clone(),
+            ),
+        };
+        emit(
+            out,
+            &Line {
+                group: "tagcfg",
+                case: json!({"batch": 0, "tagcfg": tc.idx,
+                             "tag_config": tc.config.as_ref().map(|c| json!({"allow_other_tags": c.allow_other_tags,
+                                 "policy": c.policy, "tags": c.tags.iter().map(|t| t.name.clone()).collect::<Vec<_>>()})),
+                             "endpoints": eps.iter().map(|d| json!({"operation_id": opid(d), "tags": d.tags,
+                                 "unpublished": d.unpublished})).collect::<Vec<_>>()}),
+                obs: json!({"styles": STYLES, "refused": refused,
+                            "get_tag_config": {"trait-impl": cfgs[0], "trait-stub": cfgs[1]},
+                            "documents_identical": docs_same}),
+                coq,
+                tags: vec![format!("tagcfg:policy:{}", pol), format!("tagcfg:allow_other_tags:{}", allow),
+                           format!("tagcfg:tags:{}", ts)],
+                nontrivial: true,
+            },
+        );
+    }
+}
+
 // ------------------------------------------------------------ batches
 
 struct Batch {
@@ -724,6 +937,13 @@ fn main() {
                         run_batch(b, opts, Some(&idxs), out);
                     }
                 }
+                let tcs: Vec<usize> = cases
+                    .iter()
+                    .filter_map(|c| c.get("tagcfg").and_then(|v| v.as_u64()).map(|i| i as usize))
+                    .collect();
+                if !tcs.is_empty() {
+                    run_tagcfg(Some(&tcs), out);
+                }
             }
             None => {
                 for b in &bs {
@@ -731,6 +951,7 @@ fn main() {
                         run_batch(b, opts, None, out);
                     }
                 }
+                run_tagcfg(None, out);
             }
         }
     });
